@@ -187,7 +187,8 @@ class ChangingRegistry(ResourceRegistry[handlers.ChangingHandler, causes.Changin
                         pass  # skip initial handlers in non-initial causes.
                     elif handler.initial and cause.deleted and not handler.deleted:
                         pass  # skip initial handlers on deletion, unless explicitly marked as used.
-                    elif handler.reason is None and not handler.initial and cause.deleted:
+                    elif (handler.reason is None and not handler.initial
+                          and handler.field_needs_change and cause.deleted):
                         pass  # skip field handlers on deletion: they are for the updates only.
                     elif match(handler=handler, cause=cause):
                         yield handler
